@@ -952,13 +952,26 @@ pub fn generate(seed: u64, tier: Tier, p: &Profile) -> Scenario {
                     }
                     _ => {}
                 }
+                // now and then the return output carries a datum or a reference script (a full output is allowed there)
+                let (rdatum, rsref) = if g.r.chance(1, 4) {
+                    let d = g.r.below(g.w.datums.len() as u64) as u16;
+                    match g.r.below(3) {
+                        0 => (Some(DatumAt::Hash(d)), None),
+                        1 => (Some(DatumAt::Inline(d)), None),
+                        _ => (None, Some(g.r.below(g.w.scripts.len() as u64) as u16)),
+                    }
+                } else {
+                    (None, None)
+                };
+                let extra = 60 * assets.len() as u64 + if rdatum.is_some() { 40 } else { 0 } + if rsref.is_some() { 60 } else { 0 };
                 let coin = match g.r.below(5) {
-                    0 => g.min_ada(60 * assets.len() as u64) - 1 - g.r.below(1000),
+                    0 => g.min_ada(extra) - 1 - g.r.below(1000),
                     1 => total,
                     2 => total + 1,
-                    _ => (total / 2).max(g.min_ada(60 * assets.len() as u64)),
+                    3 if rdatum.is_some() || rsref.is_some() => g.min_ada(60 * assets.len() as u64) + g.r.below(150_000),
+                    _ => (total / 2).max(g.min_ada(extra)),
                 };
-                coll_ops.push(Op::CollReturnAndTotal(OutSpec { addr: ret_addr, coin, assets, datum: None, script_ref: None, min_coin: false, form: 0 }));
+                coll_ops.push(Op::CollReturnAndTotal(OutSpec { addr: ret_addr, coin, assets, datum: rdatum, script_ref: rsref, min_coin: false, form: 0 }));
             }
             if g.r.chance(1, 3) {
                 // a second attempt on the same builder that is likely to be refused (return below its minimum ADA)
